@@ -135,20 +135,13 @@ func (p *SNIProxy) ServeTCP(in net.Conn) error {
 		return err
 	}
 
-	errc := make(chan error, 2)
-	cp := func(dst io.Writer, src io.Reader, c gkm.Counter) {
-		errc <- copyBuffer(dst, src, c)
-	}
-
 	// we've received the ClientHello already
 	if t.RxCounter != nil {
 		t.RxCounter.Add(float64(n))
 	}
 
-	go cp(in, out, t.RxCounter)
 	// read through tlsReader: it may hold bytes that arrived together with the ClientHello
-	go cp(out, tlsReader, t.TxCounter)
-	err = <-errc
+	err = tunnel(in, tlsReader, out, t.RxCounter, t.TxCounter)
 	if err != nil && err != io.EOF {
 		log.Print("[WARN]: tcp+sni:  ", err)
 		return err
